@@ -509,6 +509,13 @@ def _strip_unit_tail(items):
     return items
 
 
+def _flip_not(t):
+    """(if (not c) A B) ==> (if c B A)   (two-armed conditionals only)"""
+    while _is(t, "if") and len(t) == 4 and t[3] != ("unit",) and _is(t[1], "un") and t[1][1] == "not" and len(t[1]) == 4:
+        t = ("if", t[1][3], t[3], t[2])
+    return t
+
+
 def normalise(t):
     """Bottom-up rewriting to a canonical form in which error *content* is erased
     (only Err-ness matters to every property) and the usual spellings coincide."""
@@ -558,7 +565,7 @@ def normalise(t):
             if _is(x, "if") and x[3] == ("unit",) and _is(x[2], "return") and i < len(items) - 1:
                 rest = items[i + 1:]
                 rest_t = rest[0] if len(rest) == 1 else normalise(("seq",) + tuple(rest))
-                new = ("if", x[1], x[2], rest_t)
+                new = _flip_not(("if", x[1], x[2], rest_t))
                 head = items[:i]
                 if head:
                     return normalise(("seq",) + tuple(head) + (new,))
@@ -566,6 +573,8 @@ def normalise(t):
         if len(items) == 1:
             return items[0]
         return ("seq",) + tuple(items)
+    if h == "if":
+        t = _flip_not(t)
     if h == "match" and len(t) == 4:
         # match X { Some(v) => Ok(v), None => Err }  ==> (lift X)
         a, b = t[2], t[3]
